@@ -483,7 +483,7 @@ print(json.dumps(extract_sigs(pool[name])))
          bound="pool of 8 three-page documents sharing object numbers, font name and encodings (WinAnsi with/without Differences, unknown base encoding with "
                "Differences, implicit Standard, MacRoman with Differences, Type0 with predefined CMap H, Type0 with an embedded encoding CMap (pdfminer looks such a CMap up by name only: nothing decodes, but the lookup path runs), unbalanced q / text "
                "state across pages). Reference = each document extracted alone in a fresh interpreter process. quick: 60 random call histories of length 2..6, all "
-               "ordered pairs interleaved page by page, caching off, every single page and page pair extracted separately, the same document three times; thorough: 1500 histories")
+               "ordered pairs interleaved page by page, caching off, every single page and page pair extracted separately, the same document three times; thorough: 6000 histories")
 def _(tier, seed):
     import io, json, random, subprocess, sys, itertools
     rng = random.Random(seed + 12)
@@ -513,7 +513,7 @@ def _(tier, seed):
         for rep in range(3):
             if check("repeat", nm, extract_sigs(pool[nm]), [nm] * (rep + 1)):
                 return dict(evaluations=evals, distinct=len(kinds), failures=failures)
-    for it in range(60 if tier == "quick" else 1500):
+    for it in range(60 if tier == "quick" else 6000):
         hist = [rng.choice(names) for _ in range(rng.randint(2, 6))]
         for k, nm in enumerate(hist):
             got = extract_sigs(pool[nm], caching=rng.random() < .8)
